@@ -17,13 +17,15 @@ const c20Mutex = "global:cmd/collector.mutex"
 func init() {
 	register(&propDef{
 		ID:          "C20",
-		Explanation: "Structural conditions of the standalone collector's bounded window, decided from cmd/collector: (1) R-LOCK: the store (global flowRecords) and every alias of its contents (the queried sub-slice) is only accessed under the global mutex, in the mode needed; lock-balanced exits; (2) R-OWNER: only the add, query and reset functions touch the store; (3) cap shape: the add function evicts exactly when len >= maxFlowRecords (normalised comparison against the constant), the eviction is s = s[1:] (front, exactly one), and every path through the locked region ends with exactly one append of the rendered entry => by the ±1 argument len never exceeds the cap and arrival order is preserved; (4) query: the count is clamped into [0,len] by comparisons against 0 and len(store) before the suffix slice s[len-count:] (no high bound); every 4xx reply is sent on a path that never reaches the lock/store; reset stores an empty slice; (5) rendering: the loops over records and elements contain no break/continue/return; R-SWITCH/R-GETTER: the data-type switch has an explicit case for every data type the decoder supports, each using an accessor declared by that type's concrete element. (6) a parsed count is used only under err == nil and count >= 0; the text branch writes each stored entry with Write (never as a format); a lockset difference at a join (lock held on one branch only) is reported unless a deferred unlock sits next to the acquisition. Not decided: HTTP/JSON behaviour, equality of rendered text and values. Later additions: both formats are built from the window; the query path reads no mutable package state but the store (pure counters excepted); every return of the add function follows the insertion; a non-decimal parse of the count is refused. Round-five additions: a count is refused only for a parse error or a negative value; the query handler reads entries through the window only.",
+		Explanation: "Structural conditions of the standalone collector's bounded window, decided from cmd/collector: (1) R-LOCK: the store (global flowRecords) and every alias of its contents (the queried sub-slice) is only accessed under the global mutex, in the mode needed; lock-balanced exits; (2) R-OWNER: only the add, query and reset functions touch the store; (3) cap shape: the add function evicts exactly when len >= maxFlowRecords (normalised comparison against the constant), the eviction is s = s[1:] (front, exactly one), and every path through the locked region ends with exactly one append of the rendered entry => by the ±1 argument len never exceeds the cap and arrival order is preserved; (4) query: the count is clamped into [0,len] by comparisons against 0 and len(store) before the suffix slice s[len-count:] (no high bound); every 4xx reply is sent on a path that never reaches the lock/store; reset stores an empty slice; (5) rendering: the loops over records and elements contain no break/continue/return; R-SWITCH/R-GETTER: the data-type switch has an explicit case for every data type the decoder supports, each using an accessor declared by that type's concrete element. (6) a parsed count is used only under err == nil and count >= 0; the text branch writes each stored entry with Write (never as a format); a lockset difference at a join (lock held on one branch only) is reported unless a deferred unlock sits next to the acquisition. Not decided: HTTP/JSON behaviour, equality of rendered text and values. Later additions: both formats are built from the window; the query path reads no mutable package state but the store (pure counters excepted); every return of the add function follows the insertion; a non-decimal parse of the count is refused. Round-five additions: a count is refused only for a parse error or a negative value; the query handler reads entries through the window only. Round-six additions: the decoder makes one element slice per record; the count clamp is decided on enumerated paths (a requested count within range is never replaced by the whole store).",
 		Assume:      []string{"net/http handler contract", "fmt renders what it is given"},
 		Run:         runC20,
 	})
 }
 
 func runC20(p *Prog, r *Report, tier string) {
+	// AddRecordV2 adopts the element slice it is given: the decoder makes one slice per record
+	checkFreshPerIteration(p, r, "R-OWNER.elements-fresh", "(*pkg/collector.CollectingProcess).decodeDataSet", func(n string) bool { return strings.HasSuffix(n, ".AddRecordV2") }, 1, "element slice")
 	checkCountRefusal(p, r, "R-GATE.refuse-count")
 	gs := &guardSpec{Guarded: map[string]string{c20Store: c20Mutex}, Exempt: map[string]string{}}
 	_, accs := checkGuardedBy(p, r, gs, "R-LOCK", "cmd/collector")
@@ -310,6 +312,14 @@ func runC20(p *Prog, r *Report, tier string) {
 				if !nonneg || !atMost {
 					clamped = false
 					why = fmt.Sprintf("count value %s reaches the slice bound without the facts %s>=0 and %s<=len(flowRecords) on that edge", ev.v.Name(), ev.v.Name(), ev.v.Name())
+				}
+			}
+			if pOK, pWhy, conclusive := pathClamped(q, qslice, isLenStore); conclusive {
+				// the enumerated paths decide (a sentinel compared by equality, a bound held in a local are read there); the
+				// edge facts above are the fallback when the enumeration is inconclusive
+				clamped = pOK
+				if !pOK {
+					why = pWhy
 				}
 			}
 			r.Check(clamped, "R-VALUE.clamp", "cmd/collector.flowRecordHandler: count clamped to [0,len]", p.instrPos(qslice),
@@ -797,4 +807,156 @@ func checkCountRefusal(p *Prog, r *Report, rule string) {
 	w.walk(newAbsState(), f.Blocks[0], 0)
 	r.Check(bad == "" && !w.Overflow, rule, fnKey(f)+": no non-negative count is refused", p.pos(f.Pos()), "4xx replies only for an unparsable or negative count",
 		bad+": a query for more entries than are stored must return all of them (the last min(n, stored)), not an error", true)
+}
+
+// pathClamped: on every enumerated path from the handler's entry to the window slice store[len(store)-count:] the count
+// is (a) a value with lower bound >= 0 for which "count <= len(store)" was established by a branch on that path, or (b)
+// len(store) itself, and then the value it replaced was the negative "no count given" constant or was proven > len(store)
+// (a requested count within range must not be replaced: n = 0 asks for no entries).
+func pathClamped(q *ssa.Function, qslice *ssa.Slice, isLenStore func(ssa.Value) bool) (okAll bool, why string, conclusive bool) {
+	if len(q.Blocks) == 0 {
+		return false, "", false
+	}
+	okAll = true
+	n := 0
+	relHolds := func(s *absState, a linForm, strict bool, b linForm) bool { // a < b (strict) or a <= b
+		op := token.LEQ
+		if strict {
+			op = token.LSS
+		}
+		if s.evalRel(a, op, b) == 1 {
+			return true
+		}
+		if a.Sym == "" || b.Sym == "" {
+			return false
+		}
+		need := b.K - a.K // A - B <= need (or < need+... ) with A, B the bare symbols
+		if strict {
+			need--
+		}
+		for _, rel := range s.rels {
+			for _, f := range []struct {
+				l, r linForm
+				op   string
+				flip bool
+			}{{a, b, "<=", false}, {a, b, "<", false}, {b, a, ">=", true}, {b, a, ">", true}} {
+				pre := f.l.Sym
+				if !strings.HasPrefix(rel, pre) {
+					continue
+				}
+				rest := rel[len(pre):]
+				var k1, k2 int64
+				var o, sym2 string
+				if cnt, err := fmt.Sscanf(rest, "%d %s ", &k1, &o); err != nil || cnt != 2 || o != f.op {
+					continue
+				}
+				tail := rest[strings.Index(rest, " "+o+" ")+len(o)+2:]
+				if !strings.HasPrefix(tail, f.r.Sym) {
+					continue
+				}
+				sym2 = tail[len(f.r.Sym):]
+				if cnt, err := fmt.Sscanf(sym2, "%d", &k2); err != nil || cnt != 1 {
+					continue
+				}
+				// relation: L + k1 op R + k2
+				var d int64 // A - B <= d
+				if !f.flip {
+					d = k2 - k1 // A + k1 <= B + k2
+					if f.op == "<" {
+						d--
+					}
+				} else {
+					d = k1 - k2 // B + k1 >= A + k2  =>  A - B <= k1 - k2
+					if f.op == ">" {
+						d--
+					}
+				}
+				if d <= need {
+					return true
+				}
+			}
+		}
+		return false
+	}
+	wk := &absWalker{MaxPaths: 20000}
+	wk.Stop = func(in ssa.Instruction) bool { return in == ssa.Instruction(qslice) }
+	wk.OnEnd = func(s *absState, in ssa.Instruction) {
+		if in != ssa.Instruction(qslice) {
+			return
+		}
+		n++
+		b, ok := s.resolve(qslice.Low).(*ssa.BinOp)
+		if !ok || b.Op != token.SUB || !isLenStore(s.resolve(b.X)) {
+			okAll, why = false, "the low bound is not len(flowRecords) - count on some path"
+			return
+		}
+		c, l := s.linear(b.Y), s.linear(b.X)
+		if c.Sym == l.Sym && c.K == l.K {
+			// the whole store: what was the count before it was replaced? The other edges of the phi that selected
+			// len(store), each followed along the edges this path took
+			top, isPhi := b.Y.(*ssa.Phi)
+			if !isPhi {
+				return
+			}
+			for _, e := range top.Edges {
+				if e == s.env[top] || isLenStore(e) {
+					continue
+				}
+				v := e
+				known := true
+				for d := 0; d < 6; d++ {
+					ph, ok := v.(*ssa.Phi)
+					if !ok {
+						break
+					}
+					nv, ok := s.env[ph]
+					if !ok {
+						known = false
+						break
+					}
+					v = nv
+				}
+				if !known || !valueOnPath(s, v) || isLenStore(v) {
+					continue
+				}
+				o := s.linear(v)
+				if o.Sym == l.Sym && o.K == l.K {
+					continue
+				}
+				if o.Sym == "" {
+					if o.K >= 0 {
+						okAll, why = false, fmt.Sprintf("the constant count %d (within range) is replaced by the whole store", o.K)
+					}
+					continue
+				}
+				if _, hi := s.boundsOf(o); hi < 0 {
+					continue
+				}
+				if !relHolds(s, l, true, o) {
+					okAll, why = false, "a requested count that is not proven > len(flowRecords) on that path is replaced by the whole store (count = 0 must return no entry)"
+				}
+			}
+			return
+		}
+		lo, _ := s.boundsOf(c)
+		if lo < 0 || !relHolds(s, c, false, l) {
+			okAll, why = false, "a count reaches the slice bound on a path that does not establish 0 <= count <= len(flowRecords)"
+		}
+	}
+	wk.walk(newAbsState(), q.Blocks[0], 0)
+	return okAll, why, n > 0 && !wk.Overflow
+}
+
+// valueOnPath: the block defining v was entered on this path.
+func valueOnPath(s *absState, v ssa.Value) bool {
+	in, ok := v.(ssa.Instruction)
+	if !ok {
+		return true
+	}
+	for _, b := range s.Blocks {
+		if b == in.Block() {
+			return true
+		}
+	}
+	return false
 }
